@@ -20,8 +20,10 @@ type feature struct {
 	// Gen returns the entry snippet and optional library files
 	// ("<Ns>/<Class>.php" -> source). u is unique per program.
 	Gen func(r *vh.Rand, u string) (string, map[string]string)
-	// Group: ctl | expr | fn | closure | exc | cls | misc
+	// Group: ctl | expr | fn | closure | exc | cls | misc | ns | nscls
 	Group string
+	// Whole: Gen returns a whole file (several namespace sections): never hoisted by assemble, never mixed
+	Whole bool
 }
 
 func n(r *vh.Rand, lo, hi int) int { return r.Range(lo, hi) }
@@ -443,6 +445,9 @@ func FeatProg(r *vh.Rand, f *feature, name, kind string) *Prog {
 	}
 	if opMultis[f.Tag] != nil {
 		return opMultis[f.Tag](r, name, kind, opFull)
+	}
+	if nsMultis[f.Tag] != nil {
+		return nsMultis[f.Tag](r, name, kind)
 	}
 	e, libs := f.Gen(r, name)
 	p := &Prog{Name: name, Kind: kind, Tags: []string{f.Tag}, Libs: map[string]string{}}
